@@ -5,7 +5,7 @@ import vlib
 from vlib import NoVerdict
 
 OWN = {
-    "C07": {"sizes", "unique", "noSelf", "rightBucket", "ipBucket", "ipTable", "lists", "known", "noPanic"},
+    "C07": {"sizes", "unique", "noSelf", "rightBucket", "ipBucket", "ipTable", "known", "noPanic"},
     "C18": {"noEviction", "fullKeeps", "removalCause", "succession", "recordVersion", "endpointClearsLive", "creditKept", "creditSpent", "creditExhausted"},
 }
 
@@ -132,6 +132,9 @@ def run(ctx):
         if dr and dr[-1] and p == "C18":
             ctx.notes.append("drift (%s run): %d liveness-credit update(s) differ from the pinned arithmetic (+1 on success, div 3 on failure); "
                              "the statement leaves the rate open, no verdict" % (label, len(dr[-1])))
+        nl = [l for l, c in viol if c == "lists"]
+        if nl and p == "C07":   # bookkeeping the statement does not mention: reported, never a verdict
+            ctx.notes.append("drift (%s run): %d snapshot(s) where an entry is in no revalidation list or a replacement is in one (internal bookkeeping, no verdict)" % (label, len(nl)))
         mine = [(l, c) for l, c in viol if c in OWN[p]]
         byc = {}
         for l, c in mine:
